@@ -352,7 +352,7 @@ impl Check for Gates {
             };
             let snapshot = m.clone();
             let exp = m.apply(cfg, s);
-            st.hit(if got { "tx.ok" } else { "tx.refused" });
+            st.tx(kind, got);
             if got != exp {
                 let party = |x: usize| if snapshot.vet(cfg.kind, x) { "ok" } else { "not-vetted" };
                 let disc = match s {
